@@ -334,10 +334,15 @@ func (c *V2) Do(op Op) (out Outcome) {
 				}
 				page, err := pg.NextPage(ctx)
 				if err != nil {
-					return fin(err)
+					f := fin(err)
+					f.Count, f.Items = o.Count, o.Items
+					return f
 				}
 				o.Count++
 				o.Items = append(o.Items, v2Items(page.Items)...)
+				if op.FailAfterPage > 0 && int(o.Count) == op.FailAfterPage {
+					v2client.EmulateFailure(c.C, v2client.FailureCondition(op.Fail))
+				}
 			}
 			return o
 		}
@@ -383,10 +388,15 @@ func (c *V2) Do(op Op) (out Outcome) {
 				}
 				page, err := pg.NextPage(ctx)
 				if err != nil {
-					return fin(err)
+					f := fin(err)
+					f.Count, f.Items = o.Count, o.Items
+					return f
 				}
 				o.Count++
 				o.Items = append(o.Items, v2Items(page.Items)...)
+				if op.FailAfterPage > 0 && int(o.Count) == op.FailAfterPage {
+					v2client.EmulateFailure(c.C, v2client.FailureCondition(op.Fail))
+				}
 			}
 			return o
 		}
